@@ -124,6 +124,9 @@ func runServeCase(c *hsCase, census bool) (obs c14Obs) {
 		for {
 			var m map[string]interface{}
 			if err := peer.dec.Decode(&m); err != nil {
+				// the server ended the stream (close_notify under TLS, or closed): a client closes too,
+				// which lets the server's lingering close finish at once
+				pc.Close()
 				return
 			}
 			if _, ok := m["state"]; !ok {
